@@ -280,6 +280,34 @@ func init() {
 								ok = true
 							}
 						}
+						// ... and it runs "when its last key arrives": the keys the dispatcher takes for it are one of the
+						// sequences it is bound to, no more. (A shorter binding that runs because the next key rules the
+						// longer ones out must leave that key to be dispatched next: a key that is taken with the binding
+						// is a key the user typed and that never runs anything.)
+						// (main keymaps; a lone ESC has a meaning of its own in the local keymaps and after a Vi prefix)
+						if ok && !local && keys.Caller()[len(keys.Caller())-1] != 0x1b {
+							exact, plusOne := false, false
+							called := string(keys.Caller())
+							for seq, b := range tbl {
+								if b.Action == bind.Action && b.Macro == bind.Macro {
+									norm := strutilConvertMeta(seq)
+									if norm == called {
+										exact = true
+									}
+									if len(keys.Caller()) > 1 && norm == string(keys.Caller()[:len(keys.Caller())-1]) {
+										plusOne = true
+									}
+								}
+							}
+							if !exact && plusOne {
+								where := "main"
+								if local {
+									where = "local"
+								}
+								_ = where
+								propEvents = append(propEvents, [2]string{"key-ruling-out-longer-binds-is-dropped", fmt.Sprintf("keys %q were taken to run %q, which is bound to %q: the last key only ruled the longer binds out, and is dropped instead of being dispatched next", called, bind.Action, string(keys.Caller()[:len(keys.Caller())-1]))})
+							}
+						}
 						// the multibyte fallback of the main keymaps inserts an unbound character
 						if !ok && !(bind.Action == "self-insert" && !local && keys.Caller()[0] >= 0x80) {
 							propEvents = append(propEvents, [2]string{"runs-command-bound-to-a-different-sequence", fmt.Sprintf("keys %q selected %q, which no bind starting with %q has", string(keys.Caller()), bind.Action, first)})
